@@ -1210,7 +1210,8 @@ def root_local(body, o, n=6):
         return None
     for _ in range(n):
         ds = body.defs().get(l, [])
-        if len(ds) != 1 or ds[0][2] != 'assign':
+        # a parameter has its initial value besides any assignment in the body
+        if len(ds) != 1 or ds[0][2] != 'assign' or (l is not None and 1 <= l <= body.argc):
             return l
         r = ds[0][3]['r']
         if r['k'] in ('use', 'cast') and op_place(r['a'][0]) is not None and len(op_place(r['a'][0])) == 1:
